@@ -284,7 +284,7 @@ func c04Verify(c *mon.Ctx, tx *bt.Tx, idx int, script []byte, sats uint64, forki
 		opts = append(opts, interpreter.WithForkID())
 	}
 	var err error
-	if !c.Try("interpreter.Engine.Execute", func() { err = interpreter.NewEngine().Execute(opts...) }) {
+	if !c.Try("interpreter.Engine.Execute", func() { err = theEngine(c).Execute(opts...) }) {
 		return false, "", false
 	}
 	if err == nil {
